@@ -58,6 +58,7 @@ type disk struct {
 	root *node
 	hook Hook
 	tmp  int
+	chunks int
 }
 
 var d = &disk{root: newDir()}
@@ -73,6 +74,7 @@ func Reset(h Hook) {
 	d.root = newDir()
 	d.hook = h
 	d.tmp = 0
+	d.chunks = 0
 }
 
 // SetHook swaps the hook and keeps the disk contents.
@@ -236,5 +238,19 @@ func Corrupt(p string, f func([]byte) []byte) error {
 
 var errEscapes = errors.New("path escapes from parent")
 
-// WriteChunk > 0 splits every Write into system calls of at most that many bytes.
-var WriteChunk int
+// WriteChunk > 0 splits every Write into system calls of at most that many
+// bytes, for at most ChunkBudget split calls per Reset (keeps runs short).
+var (
+	WriteChunk  int
+	ChunkBudget = 48
+)
+
+func takeChunkBudget() bool {
+	d.mu.Lock()
+	defer d.mu.Unlock()
+	if d.chunks >= ChunkBudget {
+		return false
+	}
+	d.chunks++
+	return true
+}
